@@ -55,17 +55,21 @@ def scenarios(tier):
         if warm:
             main.append(('disp', 'B', 'X', 'await'))
         main.append(('disp', 'A', 'P', 'late'))
+        actors = []
         if extra:
             main.append(('disp', ybus, 'X', 'ff'))
+            # plus an external dispatcher racing with the handlers: its dispatches land at every point of the await
+            actors = [[('pause',), ('disp', ybus, 'X2', 'ff'), ('pause',), ('disp', 'A', 'X3', 'ff')]]
         main.append(('await', 'P'))
         if warm or extra:
-            handlers.append(dict(bus='B' if (warm or ybus == 'B') and nb == 2 else 'A', pat='X', name='hx', prog=[('ret', 0)]))
+            for b in buses:
+                handlers.append(dict(bus=b, pat='X', name='hx' + b, prog=[('ret', 0)]))
         orders = [['A']] if nb == 1 else [['A', 'B'], ['B', 'A']]
         forwards = [] if fwd == 'none' else [(fwd[0], fwd[1])]
         for order in orders:
             sid = f'c04/nb{nb}-y{ybus}-k{k}-{shape}-w{int(warm)}-x{int(extra)}-f{fwd}-o{"".join(order)}'
             out.append(dict(prop='C04', family='c04.await_child', id=sid,
-                            scn=dict(buses=buses, order=order, forwards=forwards, handlers=handlers, main=main, settle=1.0),
+                            scn=dict(buses=buses, order=order, forwards=forwards, handlers=handlers, main=main, actors=actors, settle=1.0),
                             params=dict(nb=nb, ybus=ybus, k=k, shape=shape, warm=warm, extra=extra, fwd=fwd),
                             cfg=dict(bound=3 if deep else 2, cap=40000 if deep else 4000, window=0.35, max_targets=2)))
     return out
